@@ -169,7 +169,7 @@ CFG = dict(
     race=False,
     harness_timeout={"quick": 180, "thorough": 1800},
     coq_sample={"quick": 100, "thorough": 200},
-    rule=("real processes: daemon delay before Done() {0, 50, 300 ms} x launcher pause right after cmd.Start() {0, 200 ms} "
+    rule=("[every third launch group runs as a program started through a RELATIVE argv[0]] real processes: daemon delay before Done() {0, 50, 300 ms} x launcher pause right after cmd.Start() {0, 200 ms} "
           "(hook VERIF_PAUSE_LAUNCH_AFTERSTART) x {1, 4} concurrent Launch calls with a silent daemon, a slow daemon (1 s before "
           "Done(); thorough also 4.5 s), launcher-program variants (stdout output after Run(), lingering 0.5 / 3.5 s before exit; thorough up "
           "to 12 s), 4 bursts of 8 overlapping launches, all under two handler names used alternately; handlers that "
